@@ -83,3 +83,16 @@ func VerifGrantAll(bm *BucketManager, host string) {
 	mb.bucket.capacity, mb.bucket.tokens = 1e9, 1e9
 	mb.bucket.mu.Unlock()
 }
+
+// VerifHostState copies the fields of the bucket registered for host (no usage count is added).
+func VerifHostState(bm *BucketManager, host string) (VerifState, bool) {
+	bm.mu.Lock()
+	mb := bm.buckets[host]
+	bm.mu.Unlock()
+	if mb == nil {
+		return VerifState{}, false
+	}
+	mb.bucket.mu.Lock()
+	defer mb.bucket.mu.Unlock()
+	return (&VerifBucket{mb.bucket}).State(), true
+}
